@@ -374,6 +374,7 @@ func (h *harness) genContext(qs []vh.GQuad, mode11 bool, base string) (*JV, map[
 	}
 	// prefixes
 	prefixOf := map[string]string{}
+	var prefixOrder []string // namespaces in order of definition: iteration must not depend on Go map order
 	all := append(append(append([]string{}, preds...), others...), dts...)
 	for i, n := 0, r.Intn(4); i < n && len(all) > 0; i++ {
 		ns := nsOf(vh.Pick(r, all))
@@ -385,6 +386,7 @@ func (h *harness) genContext(qs []vh.GQuad, mode11 bool, base string) (*JV, map[
 			continue
 		}
 		prefixOf[ns] = name
+		prefixOrder = append(prefixOrder, ns)
 		if r.Chance(15) {
 			put(name, jobj(jm("@id", jstr(ns)))) // expanded definition: not a prefix in 1.1
 		} else {
@@ -406,9 +408,9 @@ func (h *harness) genContext(qs []vh.GQuad, mode11 bool, base string) (*JV, map[
 		}
 	}
 	compact := func(iri string) string {
-		for ns, name := range prefixOf {
+		for _, ns := range prefixOrder {
 			if strings.HasPrefix(iri, ns) && r.Chance(60) {
-				return name + ":" + iri[len(ns):]
+				return prefixOf[ns] + ":" + iri[len(ns):]
 			}
 		}
 		return iri
